@@ -148,26 +148,27 @@ theorem R_exit (s : Setup) (σ : Ctx) (c u0 u1 : Nat) :
 /-- **`create event UserMessage`**: `process user input` completes, `run dialog rails` starts and takes the branch its two option
     guards select -/
 theorem R_um (s : Setup) (σ u : Ctx) (u0 c : Nat) (a b d : Bool)
-    (hu : ∀ k ∈ KU, ∀ kv ∈ u, kv.1 ≠ k)
+    (hu : ∀ k ∈ K10, ∀ kv ∈ u, kv.1 ≠ k)
     (h1 : (σ.get "generation_options").truthy = a) (h2 : (σ.get "generation_options.rails.dialog").pyEq (.bool false) = b)
     (h3 : (σ.get "generation_options.rails.output").pyEq (.bool false) = d) :
     ∃ σ', RunsTo s (base ++ s.rails) (oneFlow σ "process user input" u0 9 createUserMessage 10000 u c) [] (rdrState σ' c (dlgBranch a b d)) ∧
-      Keep KU σ σ' := by
+      Keep K10 σ σ' ∧ σ'.get "user_message" = (roundCtx (oneFlow σ "process user input" u0 9 createUserMessage 10000 u c)).get "user_message" := by
   let st := oneFlow σ "process user input" u0 9 createUserMessage 10000 u c
-  have hK : Keep KU σ (roundCtx st) := roundCtx_keep _ st hu
+  have hK : Keep K10 σ (roundCtx st) := roundCtx_keep _ st hu
   let σ1 := (roundCtx st).withEvent (.actionFinished "create_event" true)
-  have hK1 : Keep KU σ σ1 := hK.withEvent _ (by keysU_tac)
+  have hK1 : Keep K10 σ σ1 := hK.withEvent _ (by keys_tac)
   obtain ⟨nx, u', hpre⟩ := replay_pre (base ++ s.rails) st
     [.startAction, .actionFinished "create_event" true, .other "UserMessage" [("text", (roundCtx st).get "user_message")]]
-  refine ⟨σ1.withEvent (.other "UserMessage" [("text", (roundCtx st).get "user_message")]), ?_, hK1.withEvent _ (by keysU_tac)⟩
-  have := RunsTo.ce (s := s) (cfgs := base ++ s.rails) st _ _ u0 10000 "UserMessage" [("text", (roundCtx st).get "user_message")] rfl
-    (by simp [createdEvent]) (by
-      rw [hpre]
-      exact replay_two _ _ _ _ _ _ (T_um_a s.rails s.rails_sub _ _ _ _ _)
-        (T_um_b s.rails s.rails_sub σ1 _ c u0 _ _ _ a b d (by rw [hK1 _ (by simp [KU, K10, K8])]; exact h1)
-          (by rw [hK1 _ (by simp [KU, K10, K8])]; exact h2) (by rw [hK1 _ (by simp [KU, K10, K8])]; exact h3)) (by simp) (by simp))
-  simp [ceObs] at this
-  exact this
+  refine ⟨σ1.withEvent (.other "UserMessage" [("text", (roundCtx st).get "user_message")]), ?_, hK1.withEvent _ (by keys_tac), ?_⟩
+  · have := RunsTo.ce (s := s) (cfgs := base ++ s.rails) st _ _ u0 10000 "UserMessage" [("text", (roundCtx st).get "user_message")] rfl
+      (by simp [createdEvent]) (by
+        rw [hpre]
+        exact replay_two _ _ _ _ _ _ (T_um_a s.rails s.rails_sub _ _ _ _ _)
+          (T_um_b s.rails s.rails_sub σ1 _ c u0 _ _ _ a b d (by rw [hK1 _ (by simp [K10, K8])]; exact h1)
+            (by rw [hK1 _ (by simp [K10, K8])]; exact h2) (by rw [hK1 _ (by simp [K10, K8])]; exact h3)) (by simp) (by simp))
+    simp [ceObs] at this
+    exact this
+  · rw [get_withEvent_plain _ _ _ (by plain_tac), get_withEvent_plain _ _ _ (by plain_tac)]
 
 theorem allDone_one (cfgs : Cfgs) (f : FS) (hs : f.status = .completed) (hf : (cfgs.find f.flowId).isSome = true) : AllDone cfgs [f] := by
   intro x hx; simp at hx; subst hx; exact ⟨hs, hf⟩
@@ -294,11 +295,21 @@ theorem R_startOutRails (s : Setup) (σ u : Ctx) (u0 c : Nat) (h0c : u0 < c) (n0
 
 
 
+def KB : List String := "bot_message" :: K8
+
+theorem forall_KB (p : String → Prop) (h0 : p "bot_message") (h : ∀ k ∈ K8, p k) : ∀ k ∈ KB, p k := by
+  intro k hk
+  rcases List.mem_cons.mp hk with rfl | hk
+  · exact h0
+  · exact h k hk
+
+macro "keysB_tac" : tactic => `(tactic| (apply forall_KB; plain_tac; keys_tac8))
+
 /-- **exit from the output loop**: `create event OutputRailsFinished`; `process bot message` then asks for the final `create event StartUtteranceBotAction` -/
 theorem R_exitO (s : Setup) (σ : Ctx) (c u0 u1 : Nat) :
-    ∃ σ', RunsTo s (base ++ s.rails) (exitStateO σ c u0 u1) [] (oneFlow σ' "process bot message" u0 12 createSubaBot 1000000 [] c) ∧ Keep K8 σ σ' := by
+    ∃ σ', RunsTo s (base ++ s.rails) (exitStateO σ c u0 u1) [] (oneFlow σ' "process bot message" u0 12 createSubaBot 1000000 [] c) ∧ Keep KB σ σ' := by
   let st := exitStateO σ c u0 u1
-  have hK : Keep K8 σ (roundCtx st) := roundCtx_keep _ st (by
+  have hK : Keep KB σ (roundCtx st) := roundCtx_keep _ st (by
     intro k hk kv hkv
     simp only [st, exitStateO, List.mem_singleton] at hkv
     subst hkv
@@ -311,7 +322,7 @@ theorem R_exitO (s : Setup) (σ : Ctx) (c u0 u1 : Nat) :
       exact replay_two _ _ _ _ _ _ (T_exitO_a s.rails s.rails_sub _ _ _ _ _ _ _) (T_exitO_b s.rails s.rails_sub _ _ c u0 _) (by simp) (by simp))
     simp [ceObs] at this
     exact this
-  · exact (hK.withEvent _ (by keys_tac8)).withEvent _ (by keys_tac8)
+  · exact (hK.withEvent _ (by keysB_tac)).withEvent _ (by keysB_tac)
 
 
 
